@@ -40,15 +40,28 @@ theorem il_taskK_start (s : Sys) (t : Tid) (now : Time) (dur : Nat)
   by_cases hrt : r.id = t
   · rw [if_pos hrt] at hi ⊢
     have hi' : t.isIngest = true := by rw [← hrt]; exact hi
-    exact ⟨rfl, rfl, rfl, fun h0 h0' => (h r hr hrt hi' h0 h0').symm⟩
+    exact ⟨rfl, rfl, rfl, fun h0 h0' => (h r hr hrt hi' h0 h0').symm, rfl⟩
   · rw [if_neg hrt]
-    exact ⟨rfl, rfl, rfl, fun _ _ => rfl⟩
+    exact ⟨rfl, rfl, rfl, fun _ _ => rfl, rfl⟩
+
+/-- F13: as `IlTaskK`, but the last block of the body stamps the finish `now + 1` on its task -/
+def IlTaskKD (t : Tid) (ph : Nat) (now : Time) (ts ts' : List TaskRec) : Prop :=
+  ∀ r' ∈ ts', r'.id.isIngest = true →
+    ∃ r ∈ ts, r'.id = r.id ∧ r'.flops = r.flops ∧ r'.data = r.data ∧
+      (r.flops = 0 → r.data = 0 → r'.duration = r.duration) ∧
+      (r'.aft = r.aft ∨ (r.id = t ∧ 2 ≤ ph ∧ r'.aft = some (now + 1)))
+
+theorem IlTaskK.toD {ts ts' : List TaskRec} (h : IlTaskK ts ts') (t : Tid) (ph : Nat) (now : Time) :
+    IlTaskKD t ph now ts ts' := by
+  intro r' hr' hi
+  obtain ⟨r, hr, e1, e2, e3, e4, e5⟩ := h r' hr' hi
+  exact ⟨r, hr, e1, e2, e3, e4, Or.inl e5⟩
 
 theorem il_doWorkBlock_taskK (s : Sys) (now : Time) (orc : Oracle) (t : Tid) (m : Mid) (preds : List Tid)
     (ph tot : Nat)
     (hR : t.isIngest = true → ∀ r ∈ s.tasks, r.id = t → r.flops = 0 ∧ r.data = 0 ∧
       ∀ r2 ∈ s.tasks, r2.id = t → r2.duration = r.duration) :
-    IlTaskK s.tasks (s.doWorkBlock now orc t m preds ph tot).1.tasks := by
+    IlTaskKD t ph now s.tasks (s.doWorkBlock now orc t m preds ph tot).1.tasks := by
   -- the start stamp, whatever the delay
   have hstart : ∀ (total : Nat), IlTaskK s.tasks
       (match s.task? t, s.machine? m with
@@ -93,18 +106,24 @@ theorem il_doWorkBlock_taskK (s : Sys) (now : Time) (orc : Oracle) (t : Tid) (m 
   by_cases h0 : ph = 0
   · simp only [h0, if_true]
     split
-    · exact hstart tot
+    · exact (hstart tot).toD _ _ _
     · split
-      · exact IlTaskK.refl _
-      · exact IlTaskK.refl _
+      · exact (IlTaskK.refl _).toD _ _ _
+      · exact (IlTaskK.refl _).toD _ _ _
   · simp only [h0, if_false]
     by_cases h1 : ph = 1
     · simp only [h1, if_true]
-      exact hstart tot
+      exact (hstart tot).toD _ _ _
     · simp only [h1, if_false]
-      apply IlTaskK.updTask
-      intro r
-      refine ⟨?_, ?_, ?_, fun _ _ => ?_⟩ <;> (simp only; split <;> rfl)
+      intro r' hr' _
+      simp only [Sys.updTask, List.mem_map] at hr'
+      obtain ⟨r, hr, rfl⟩ := hr'
+      refine ⟨r, hr, ?_⟩
+      by_cases hrt : r.id = t
+      · rw [if_pos hrt]
+        refine ⟨?_, ?_, ?_, fun _ _ => ?_, Or.inr ⟨hrt, by omega, rfl⟩⟩ <;> (simp only; split <;> rfl)
+      · rw [if_neg hrt]
+        exact ⟨rfl, rfl, rfl, fun _ _ => rfl, Or.inl rfl⟩
 
 /-- the body of an ingest task of an observation of duration `D`: it starts at once, takes `D`,
 and its last block only ends it -/
@@ -138,6 +157,13 @@ theorem il_doWorkBlock_ingest (s : Sys) (now : Time) (orc : Oracle) (htot : orc.
     have h0 : ¬ ph = 0 := by omega
     have h1 : ¬ ph = 1 := by omega
     simp only [h0, h1, if_false]
+
+theorem il_doWorkBlock_done (s : Sys) (now : Time) (orc : Oracle) (t : Tid) (m : Mid) (preds : List Tid)
+    (ph tot : Nat) (h2 : 2 ≤ ph) : (s.doWorkBlock now orc t m preds ph tot).2.2 = .done := by
+  unfold doWorkBlock
+  have h0 : ¬ ph = 0 := by omega
+  have h1 : ¬ ph = 1 := by omega
+  simp only [h0, h1, if_false]
 
 theorem il_cast_bodyWait (a D : Nat) (h : 1 ≤ D) :
     ((a : Nat) : Time) + ((bodyWait D : Nat) : Time) = ((a + (D - 1) : Nat) : Time) := by
@@ -204,12 +230,12 @@ theorem ilti_step_doWork {s : Sys} (hs : SInv s) (h : ILTI s) {pid : Nat} {p : P
       rw [e3, e4]
     | wf o c n => simp [Tid.isIngest] at hi
     | raw n => simp [Tid.isIngest] at hi
-  have htasks : IlTaskK s.tasks (s.resume pid orc).1.tasks := by
+  have htasks : IlTaskKD t ph p.wake s.tasks (s.resume pid orc).1.tasks := by
     rw [f3]; exact il_doWorkBlock_taskK s p.wake orc t m preds ph tot hRt
   constructor
   · rw [hobs]; exact h.durPos
   · intro r' hr' o i hid
-    obtain ⟨r, hr, e1, e2, e3, e4⟩ := htasks r' hr' (by rw [hid]; rfl)
+    obtain ⟨r, hr, e1, e2, e3, e4, _⟩ := htasks r' hr' (by rw [hid]; rfl)
     obtain ⟨k1, k2, ob, hob, k3⟩ := h.taskR r hr o i (e1 ▸ hid)
     exact ⟨e2.trans k1, e3.trans k2, ob, by rw [ho]; exact hob, (e4 k1 k2).trans k3⟩
   · intro q hq o tl hqk hpc
@@ -267,7 +293,7 @@ theorem ilti_step_doWork {s : Sys} (hs : SInv s) (h : ILTI s) {pid : Nat} {p : P
             rw [hy, il_fin_wake_timeout, hrw, hba]
             exact il_cast_bodyWait a ob.duration hD
           refine ⟨?_, 2, ob.duration, by rw [fin_k, hkk], fun _ => Or.inr (Nat.le_refl _), ob, a,
-            a + (ob.duration - 1), by rw [ho]; exact hob, hast, hw', fun _ h2 => absurd h2 (by simp), by omega⟩
+            a + (ob.duration - 1), by rw [ho]; exact hob, hast, hw', fun _ h2 => absurd h2 (by simp), by omega, hbd.2⟩
           rw [hw']
           have : ((a : Nat) : Time) ≤ ((a + (ob.duration - 1) : Nat) : Time) :=
             Rat.natCast_le_natCast.mpr (by omega)
@@ -280,6 +306,20 @@ theorem ilti_step_doWork {s : Sys} (hs : SInv s) (h : ILTI s) {pid : Nat} {p : P
         · intro hal; rw [hy] at hal; exact absurd hal (by simp)
         · intro hal; rw [hy] at hal; exact absurd hal (by simp)
     · exact ⟨r, m3 r hr hrpid, hrp, hqw, phr, totr, hrk, hph, ob, a, b, by rw [ho]; exact hob, hast, hrw, hb0, hbd⟩
+  · -- F13: recorded finishes: the old ones, and the one this block stamps
+    intro r' hr' hi f hf
+    obtain ⟨r, hr, e1, _, _, _, e5⟩ := htasks r' hr' hi
+    rcases e5 with e5 | ⟨hrt, hph2, e5⟩
+    · obtain ⟨d, hd, hda, hfd, m', preds', ph'', tot'', hdk⟩ := h.aftI r hr (e1 ▸ hi) f (e5 ▸ hf)
+      refine ⟨d, m3 d hd ?_, hda, hfd, m', preds', ph'', tot'', by rw [e1]; exact hdk⟩
+      intro e
+      have : d = p := hpw.eq_of_pid hd hpm (e.trans hpid.symm)
+      rw [this, ha] at hda; exact absurd hda (by simp)
+    · have hy : (s.block p orc).2.2 = .done := by rw [hb]; exact il_doWorkBlock_done s p.wake orc t m preds ph tot hph2
+      rw [e5] at hf
+      injection hf with hf
+      refine ⟨_, hp'in, by rw [hy]; rfl, ?_, m, preds, ph', tot', by rw [hp'k, e1, hrt]⟩
+      rw [hy]; exact hf.symm
   · intro e he
     rw [hcl] at he
     obtain ⟨o, h1, q, hq, h2, h3, preds1, ret, hqk⟩ := h.entPend e he
@@ -296,7 +336,7 @@ theorem ilti_step_doWork {s : Sys} (hs : SInv s) (h : ILTI s) {pid : Nat} {p : P
       rcases m1 r' hr' with rfl | ⟨hh, _⟩ | ⟨_, hge⟩
       · -- the body that ran was alive: it is not the (dead) body of a stale allocation process
         exfalso
-        have := hdead p hpm (by simpa [hpid] using hrp)
+        have := (hdead p hpm (by simpa [hpid] using hrp)).1
         rw [this] at ha; exact absurd ha (by simp)
       · exact hdead r' hh hrp
       · exfalso
